@@ -6,7 +6,7 @@ from typing import Dict, List, Optional, Tuple
 
 from . import poly
 from .absint import BoolV, DictV, N, NoneV, Num, Obj, Opaque, Path, Site, Str, T, Val, show_cond
-from .core import Finding, Result, finding
+from .core import Finding, Result, finding, norm_construct
 from .facts import describe_facts, prove_ge0
 from .indic import CANDLE_FIELDS, ClassAnalysis, analyse_class
 from .model import ClassInfo, Repo
@@ -350,7 +350,7 @@ def check_div(prop: str, res: Result, repo: Repo, cas: List[ClassAnalysis], sign
             elif nonzero(sg) or env.fact_nonzero(den):
                 res.ok("R-DIV", {"site": f"{ca.ci.module.relpath}:{s.line}", "den": repr(den), "sign": sg, "facts": describe_facts(s.facts)}, nontrivial=f"{ca.ci.name}:{den!r}")
             else:
-                res.fail("R-DIV", finding(prop, "R-DIV", fn, s.node, f"denominator {den!r} (sign {sg}) is not provably non-zero; facts: {describe_facts(s.facts)}"))
+                res.fail("R-DIV", finding(prop, "R-DIV", fn, s.node, f"`{norm_construct(s.node)}`: denominator {den!r} (sign {sg}) is not provably non-zero; facts: {describe_facts(s.facts)}", construct=f"division by {den!r}"))
 
 
 def check_sqrt(prop: str, res: Result, repo: Repo, cas: List[ClassAnalysis], signs: Signs):
@@ -404,7 +404,7 @@ def check_truth(prop: str, res: Result, repo: Repo, cas: List[ClassAnalysis], si
             else:
                 res.fail(
                     "R-TRUTH",
-                    finding(prop, "R-TRUTH", fn, s.node, f"presence of {v!r} tested by truthiness but its sign domain is {sg}: a legitimate 0.0 reads as missing"),
+                    finding(prop, "R-TRUTH", fn, s.node, f"`{norm_construct(s.node)}`: presence of {v!r} tested by truthiness but its sign domain is {sg}: a legitimate 0.0 reads as missing", construct=f"truthiness of {v!r}"),
                 )
         for s in ca.sites("truthy-opaque"):
             res.note(f"{ca.ci.module.relpath}:{s.line} truthiness of an unmodelled value {s.data.get('value')!r}")
